@@ -57,7 +57,7 @@ fn tag() -> BoxedStrategy<Tag> {
 fn strat(tier: Tier) -> BoxedStrategy<Case> {
   let n = tier.pick(60usize, 120usize);
   let op = prop_oneof![
-    6 => (any::<u16>(), tag(), 0u8..4, any::<bool>()).prop_map(|(h, tag, point, verifiable)| Op::Eval { h, tag, point, verifiable }),
+    6 => (any::<u16>(), tag(), 0u8..5, any::<bool>()).prop_map(|(h, tag, point, verifiable)| Op::Eval { h, tag, point, verifiable }),
     5 => (any::<u16>(), tag()).prop_map(|(h, tag)| Op::Puncture { h, tag }),
     2 => any::<u16>().prop_map(|h| Op::Clone { h }),
     2 => any::<u16>().prop_map(|h| Op::ExportImport { h }),
@@ -101,7 +101,9 @@ fn resolve(t: &Tag, reg: &[u8]) -> u8 {
 }
 
 pub fn oracle(c: &Case, st: &mut Stats) -> Result<(), String> {
-  let points: Vec<_> = (0..4u64).map(|i| point_from(&valid_point(1000 + i).compress().to_bytes())).collect();
+  // four ordinary points and, last, the neutral element (a degenerate but decodable request)
+  let mut points: Vec<_> = (0..4u64).map(|i| point_from(&valid_point(1000 + i).compress().to_bytes())).collect();
+  points.push(point_from(&[0u8; 32]));
   let first = new_server(&c.mds).map_err(|e| e.to_string())?;
   let mut model = Model {
     registered: vec![c.mds.iter().cloned().collect()],
@@ -145,7 +147,10 @@ pub fn oracle(c: &Case, st: &mut Stats) -> Result<(), String> {
         }
       }
       Err(e) => {
-        if expect_ok {
+        // the neutral element may be refused outright (a server is free to harden against it);
+        // what it may never get is an answer for a tag that is punctured or not registered
+        let neutral = points[pi as usize % points.len()].as_bytes() == &[0u8; 32];
+        if expect_ok && !neutral {
           return Err(format!("{ctx}: server refused registered, unpunctured tag {md}: {e} (punctured in this history: {:?})", h.punctured));
         }
       }
@@ -343,7 +348,7 @@ pub fn property() -> Property {
   Property {
     id: "C14",
     level: "model_checking",
-    rule: "model-based histories: a pool of server handles, each with a lineage (key identity), the lineage's registered tag set and the handle's punctured set; a memo (lineage, tag, point) -> output; the public-key bytes per lineage. Ops (1..60 per history, 120 thorough): Eval(handle, registered / adjacent / raw tag, one of 4 valid points, verifiable), Puncture(handle, tag incl. unregistered, already punctured, 0, 255, adjacent), Clone, ExportImport into a fresh server created with a different tag set, Sweep of all 256 tags, NewServer. Invariant after every op: eval is Ok iff tag registered in the lineage and not punctured in that handle's history; Ok outputs equal the memo; puncture is Ok exactly the first time per handle history; after a puncture the neighbours and all registered tags are re-checked; importer and exporter are swept over all 256 tags at export time; public key bytes constant per lineage; final sweep of every handle. Non-trivial: a puncture followed by an export/import or clone or further eval; distinct by op sequence.",
+    rule: "model-based histories: a pool of server handles, each with a lineage (key identity), the lineage's registered tag set and the handle's punctured set; a memo (lineage, tag, point) -> output; the public-key bytes per lineage. Ops (1..60 per history, 120 thorough): Eval(handle, registered / adjacent / raw tag, one of 4 valid points or the neutral element, verifiable), Puncture(handle, tag incl. unregistered, already punctured, 0, 255, adjacent), Clone, ExportImport into a fresh server created with a different tag set, Sweep of all 256 tags, NewServer. Invariant after every op: eval is Ok iff tag registered in the lineage and not punctured in that handle's history; Ok outputs equal the memo; puncture is Ok exactly the first time per handle history; after a puncture the neighbours and all registered tags are re-checked; importer and exporter are swept over all 256 tags at export time; public key bytes constant per lineage; final sweep of every handle. Non-trivial: a puncture followed by an export/import or clone or further eval; distinct by op sequence.",
     assumptions: vec!["keys come from OsRng", "4 fixed valid points stand for 'a given point'"],
     subs: vec![
       prop_sub("server_histories", 700, 20000, strat, oracle),
